@@ -76,6 +76,7 @@ func loadVerifier(repoDir string) (*Verifier, error) {
 		fnByKey: map[string]*ssa.Function{}, writesCache: map[*ssa.Function]*writeSet{}, writesBusy: map[*ssa.Function]bool{}, closedCheck: map[string]bool{}, regexUsed: map[string]string{}}
 	v.refLangs = referenceLanguages()
 	cfg := &packages.Config{Mode: packages.LoadAllSyntax, Dir: repoDir, BuildFlags: []string{"-tags=verif"}}
+	cfg.Env = append(os.Environ(), "PATH=/opt/veriftools/go1.26.8/bin:"+os.Getenv("PATH"), "GOTOOLCHAIN=local", "GOFLAGS=-mod=mod", "GOPROXY=off", "GOSUMDB=off")
 	pkgs, err := packages.Load(cfg, "./wamp/...", "./router/...", "./transport/...", "./client/...", "./stdlog/...")
 	if err != nil {
 		return nil, err
@@ -823,14 +824,14 @@ func (v *Verifier) writeQuery(u *Unit, o *Obligation, dir string, logic string, 
 		fmt.Fprintf(&b, "(assert (not %s))\n", o.cond)
 	}
 	b.WriteString("(check-sat)\n")
-	if len(u.Inputs) > 0 {
-		b.WriteString("(get-value (")
-		for _, in := range u.Inputs {
-			if len(in.val.tuple) == 0 && in.val.term != "" {
-				b.WriteString(in.val.term + " ")
+	if u.Enc != nil && u.Fn != nil && o.Expect != "sat" {
+		if mts := v.replayTerms(u, o); len(mts) > 0 {
+			b.WriteString("(get-value (")
+			for _, mt := range mts {
+				b.WriteString(mt.Term + " ")
 			}
+			b.WriteString("))\n")
 		}
-		b.WriteString("))\n")
 	}
 	suffix := ".smt2"
 	if light {
